@@ -239,7 +239,7 @@ def gen_history(rng, kinds, maxlen, quarantine=True):
     if rng.random() < 0.25:
         plan[str(rng.randrange(0, 6))] = ["raise", rng.choice(["E1", "E2", "Inj", "StopIteration", "GeneratorExit"])]
     if rng.random() < 0.12:
-        plan[str(rng.randrange(0, 6))] = ["reenter", rng.choice(["next", "send", "throw", "close"])]
+        plan[str(rng.randrange(0, 6))] = [rng.choice(["reenter", "reenter", "xthread"]), rng.choice(["next", "send", "throw", "close"])]
     return {"func": fi, "kind": kind, "arg": rng.choice([0, 1, 3, 7]), "ops": ops, "plan": plan}
 
 
@@ -549,7 +549,7 @@ def one_run(check, seed, i, cfg):
             res["probes"]["delegate_dealloc_order_only_diffs"] = res["probes"].get("delegate_dealloc_order_only_diffs", 0) + 1
             d = None
         flat = json.dumps(t_model)
-        for name, pat in (("throw_while_delegating", '"it.throw"'), ("close_reaches_delegate", '"it.close"'), ("reentry_refused", '"reenter-raised"'),
+        for name, pat in (("throw_while_delegating", '"it.throw"'), ("close_reaches_delegate", '"it.close"'), ("reentry_refused", '"reenter-raised"'), ("cross_thread_resume_refused", '"xthread-raised"'),
                           ("pygen_finally_ran", '"pygen.finally"'), ("asyncgen_finalizer", '"finalizer"'), ("await_path", '"aw.start"'),
                           ("injected_raise_in_body", '"inject"')):
             if pat in flat:
